@@ -73,7 +73,7 @@ theorem func_params_safe (ft : Feat) (ident : Bytes → Bytes) (kw : List Bytes)
     (hraw : ∀ a ∈ f.args ++ f.throws, hasDollar a.name = false)
     (hkw : ∀ k ∈ kw, 95 ∉ k) :
     let ps := f.args.map (fun a => ns.get a.name)
-    ps.Nodup ∧ (∀ p ∈ ps, p ∉ fnReserved f.void) ∧ (∀ p ∈ ps, p ∉ kw) :=
+    ps.Nodup ∧ (∀ p ∈ ps, p ∉ fnReserved ft f.void) ∧ (∀ p ∈ ps, p ∉ kw) :=
   Names.buildFunction_safe ft ident kw f ns h hargs hraw hkw
 
 /-- the hypotheses are satisfiable: `void f(1: i32 type, 2: i32 p) throws (1: X e)` with the regenerated keyword table -/
